@@ -37,7 +37,8 @@ ALGS = ["PowerMethod", "GradientMethod", "GradientMethod-acc", "GradientMethod-b
         "ConjugateGradient-illcond", "PDHG",
         "PDHG-acc", "PDHG-zero-l1-smallsigma", "PDHG-zero-box", "AltMin",
         "AugmentedLagrangianMethod", "ADMM", "SDMM", "SDMM-norm", "NewtonsMethod",
-        "NewtonsMethod-bt", "GerchbergSaxton", "GradientMethod-sol0", "GradientMethod-nested"]
+        "NewtonsMethod-bt", "GerchbergSaxton", "GradientMethod-sol0", "GradientMethod-nested",
+        "GradientMethod-iso", "GradientMethod-iso-acc"]
 APPS = ["MaxEig", "LLS-CG", "LLS-CG-strided", "LLS-GM", "LLS-PDHG", "LLS-PDHG-smallsigma", "LLS-ADMM",
         "L2ConstrainedMinimization", "SenseRecon", "EspiritCalib", "TotalVariationRecon",
         "JsenseRecon", "L1WaveletRecon"]
@@ -73,6 +74,14 @@ def plan(tier, seed):
               via=pick(rng, ["func", "linop", "maxeig"]), mi=int(pick(rng, [1, 5, 30])),
               spec=pick(rng, ["psd", "psd", "rankdef", "repeated"]),
               aseed=int(rng.integers(1 << 30)))
+    # transient failures: the user's operator raises once during an update; the caller
+    # catches the error and resumes the loop - the failed update must not count, so with
+    # tol = 0 the solver still performs max_iter real updates before it stops
+    for r in range(60 if quick else 600):
+        P.add("transient", alg=pick(rng, ["ConjugateGradient", "GradientMethod", "PowerMethod",
+                                          "GradientMethod-acc"]),
+              mi=int(pick(rng, [1, 2, 4, 7])), fail_at=int(rng.integers(0, 7)),
+              cplx=bool(rng.random() < 0.5), aseed=int(rng.integers(1 << 30)))
     if tier == "thorough" and repo_tests.available():
         # the repository's own test suite as one more workload under the always-on monitors
         P.add("repo-tests", timeout=1800.0, fresh=True)
@@ -118,6 +127,18 @@ def make_alg(kind, rng, mi):
             x = crandn(rng, [n], M.dtype)
             a = A_.GradientMethod(lambda v: M.conj().T @ (M @ v - y), x, 1 / L, proxg=proxg,
                                   accelerate=bool(rng.random() < 0.5), max_iter=mi, tol=0)
+            return a, (lambda: [a.x]), nobreak
+        if kind.startswith("GradientMethod-iso"):
+            # complex data whose steps are "isotropic": pairs (c, i c), so that sum(d * d) = 0
+            # although ||d|| > 0 - the step is far from zero after the first update
+            n2 = 2 * int(rng.integers(1, 4))
+            c_ = crandn(rng, [n2 // 2], np.complex128) + 1.5
+            yiso = np.stack([c_, 1j * c_], axis=1).ravel()
+            dd = rng.uniform(0.5, 1.0, n2 // 2).repeat(2)       # same weight within a pair
+            x = np.zeros(n2, np.complex128)
+            a = A_.GradientMethod(lambda v: dd * v - yiso, x, 0.25,
+                                  proxg=pick(rng, [None, sp.prox.L1Reg([n2], 1e-3)]),
+                                  accelerate=kind.endswith("acc"), max_iter=mi, tol=0)
             return a, (lambda: [a.x]), nobreak
         if kind == "GradientMethod-box-acc":
             # optimum far outside the box: every coordinate gets clipped
@@ -549,9 +570,68 @@ def run_fista_stall(case):
     return r
 
 
+def run_transient(case):
+    import sigpy as sp
+    rng = np.random.default_rng(case["aseed"])
+    kind, mi = case["alg"], case["mi"]
+    n = int(rng.integers(2, 7))
+    dt = np.complex128 if case["cplx"] else np.float64
+    G = crandn(rng, [n + 2, n], dt)
+    H = G.conj().T @ G + 0.1 * np.eye(n)
+    b = crandn(rng, [n], dt)
+    calls = [0]
+    fail_at = case["fail_at"]
+
+    class Transient(RuntimeError):
+        pass
+
+    def op(v):
+        calls[0] += 1
+        if calls[0] == fail_at + 2:        # (+1: the constructors of CG / none apply A once)
+            raise Transient("transient failure of the user's operator")
+        return H @ v
+    sig = "transient|%s|mi%d|f%d|%s" % (kind, mi, fail_at, "c" if case["cplx"] else "r")
+    wit = dict(case)
+    x = np.zeros(n, dt)
+    if kind == "ConjugateGradient":
+        alg = sp.alg.ConjugateGradient(op, b, x, max_iter=mi, tol=0)
+    elif kind.startswith("GradientMethod"):
+        L = float(np.linalg.eigvalsh(H)[-1])
+        alg = sp.alg.GradientMethod(lambda v: op(v) - b, x, 1 / L,
+                                    accelerate=kind.endswith("acc"), max_iter=mi, tol=0)
+    else:
+        x = crandn(rng, [n], dt)
+        alg = sp.alg.PowerMethod(op, x, max_iter=mi)
+    good = failed = 0
+    while not alg.done():
+        try:
+            alg.update()
+            good += 1
+        except Transient:
+            failed += 1
+        if good + failed > mi + 5:
+            return violated(sig, "driver loop does not stop", wit, mech="max_iter:" + kind)
+    obs = {"good": good, "failed": failed}
+    if alg.iter != good:
+        return violated(sig, "%s: iteration counter %d after %d completed updates (%d update(s) "
+                        "raised and were caught by the caller)" % (kind, alg.iter, good, failed),
+                        wit, mech="counter-after-raise:" + kind, obs=obs)
+    npd = bool(getattr(alg, "not_positive_definite", False))
+    resid0 = kind != "PowerMethod" and float(getattr(alg, "resid", 1.0)) == 0.0
+    if good < mi and not npd and not resid0:
+        return violated(sig, "%s stopped after %d of max_iter=%d completed updates with tol=0 "
+                        "(one update raised and was caught): not a fixed point" % (
+                            kind, good, mi), wit, mech="early-stop-after-raise:" + kind, obs=obs)
+    r = held(sig, obs, 2, True)
+    r["tags"] = ["transient:%s" % ("hit" if failed else "not-reached")]
+    return r
+
+
 def run_case(case):
     if case["gen"] == "repo-tests":
         return repo_tests.run("C15")
+    if case["gen"] == "transient":
+        return run_transient(case)
     if case["gen"] == "fista-stall":
         return run_fista_stall(case)
     return {"loop": run_loop, "interleave": run_interleave, "app": run_app,
